@@ -54,8 +54,45 @@ def replay_bounds(rec):
     done(False, f"no failing input among {len(cands)} candidates for {rec['obligation']}")
 
 
+def replay_action_meta_data(rec):
+    """the real generator with scripted random sources: a simulated conflict must target an id that has already been handed out"""
+    from esrally.track import params
+
+    ids = [f"id-{k:03d}" for k in range(12)]
+    n = 0
+    for recency in (0, 0.5, 1.0):
+        for expo in (0.0, 1e-9, 0.03, 0.5, 0.999, 1.0, 5.0):
+            for on_conflict in ("index", "update"):
+                script = iter([1.0, 1.0, 1.0] + [0.0, 1.0] * 40)  # three fresh ids first, then alternate conflict / fresh
+                g = params.GenerateActionMetaData("idx", None, conflicting_ids=list(ids), conflict_probability=50, on_conflict=on_conflict, recency=recency,
+                                                  rand=lambda: next(script), randint=lambda a, b: b, randexp=lambda lam: expo)
+                used, fresh = [], []
+                try:
+                    for _ in range(30):
+                        before = g.id_up_to
+                        action, line = next(g)
+                        n += 1
+                        doc_id = line.split('"_id": "')[1].split('"')[0]
+                        if g.id_up_to == before + 1:
+                            if doc_id != ids[before] or action != "index":
+                                done(True, f"fresh action #{before} uses id {doc_id} / action {action}, expected {ids[before]} / index")
+                            fresh.append(doc_id)
+                        else:
+                            if doc_id not in ids[:before]:
+                                done(True, f"simulated conflict (recency {recency}, exponential draw {expo}, {before} ids handed out so far) targets id {doc_id}, which has not been used yet")
+                            if action != on_conflict:
+                                done(True, f"simulated conflict uses action {action}, configured on-conflict is {on_conflict}")
+                except StopIteration:
+                    pass
+                if fresh != ids[: len(fresh)]:
+                    done(True, f"fresh ids handed out {fresh}")
+    done(False, f"no failing draw among {n} generated actions for {rec['obligation']}")
+
+
 if __name__ == "__main__":
     rec = load()
+    if "GenerateActionMetaData" in rec["target"]:
+        replay_action_meta_data(rec)
     if rec["target"].endswith("::bounds"):
         replay_bounds(rec)
     done(False, "no adapter for " + rec["target"])
